@@ -42,3 +42,10 @@ package transaction
 //@   ensures[key-untouched] t.PublicKey == old(t.PublicKey)
 //@   ensures[given-id-kept] old(t.ClientID) != "" ==> t.ClientID == old(t.ClientID)
 //@   modifies t.ClientID
+
+// ComputeProperties fills in derived fields of the transaction (collection, chain id, parsed contract
+// call, client id); it never touches the hash. (json decoding inside: trusted frame)
+//@ func (*Transaction).ComputeProperties
+//@   trusted
+//@   modifies t.$all
+//@   ensures t.Hash == old(t.Hash)
